@@ -753,7 +753,9 @@ Fixpoint run (st : store) (ops : list op) : res store :=
      HCell j       the stream that owns cell j
      HProxy j ph   stream.flow_proxy() / link_with(flow only): another single-phase Stream object whose
                    indexer shares the SparseVector of cell j and has its own phase
-     HView j p     multistream[p]: the cached per-phase sub-stream, a Stream whose indexer wraps the row
+     HView j p lbl multistream[lbl]: the cached per-phase sub-stream; it is bound to the ROW OBJECT whose phase is p
+                   (not to a name: a later expansion may add a row called lbl), its own phase label stays lbl;
+                   a Stream whose indexer wraps the row
                    object of phase p (MaterialIndexer.get_phase; _expand_phases keeps the row objects)
      HLink j phs   one of several linked MultiStreams (link_with) on cell j - both partners are HLink handles:
                    each indexer shares the SparseArray (the rows) and has its own phases tuple; the cell
@@ -764,19 +766,22 @@ Fixpoint run (st : store) (ops : list op) : res store :=
    split_to setting the outlets' phases): then that stream gets new flow data of its own and the other
    handles stay on the old data, which keeps what was written in place before the replacement
    ([rebind_info]).  An operation is the value-level [step] on the handles' views, written back to the cells. *)
-Inductive handle := HCell (j : nat) | HProxy (j : nat) (ph : phase) | HView (j : nat) (p : phase)
+Inductive handle := HCell (j : nat) | HProxy (j : nat) (ph : phase) | HView (j : nat) (p : phase) (lbl : phase)
                   | HLink (j : nat) (phs : list phase).
 Record astore := mka { cells : store; hs : list handle }.
 Definition hcell (h : handle) : nat :=
-  match h with HCell j => j | HProxy j _ => j | HView j _ => j | HLink j _ => j end.
+  match h with HCell j => j | HProxy j _ => j | HView j _ _ => j | HLink j _ => j end.
 Definition view_of (cs : store) (h : handle) : res stream :=
   match h with
   | HCell j => gets cs j
   | HProxy j ph => do s <- gets cs j;
                    match s with SS c => Ok (SS (set_cphase c ph)) | MS _ => Err EOther end
-  | HView j p => do s <- gets cs j;
+  | HView j p lbl => do s <- gets cs j;
                  match s with
-                 | MS m => do i <- phase_index p (mphases m); Ok (SS (mkc (mpkg m) p (nth i (mrows m) [])))
+                 | MS m => match pindex_exact p (mphases m) with
+                           | Some i => Ok (SS (mkc (mpkg m) lbl (nth i (mrows m) [])))
+                           | None => Err EOther
+                           end
                  | SS _ => Err EOther
                  end
   | HLink j phs => do s <- gets cs j;
@@ -794,7 +799,7 @@ Definition exclusive (l : list handle) (k : nat) : bool :=
   | _ => false
   end.
 Definition is_view (l : list handle) (k : nat) : bool :=
-  match nth_error l k with Some (HView _ _) => true | _ => false end.
+  match nth_error l k with Some (HView _ _ _) => true | _ => false end.
 Definition kind_at (vst : store) (k : nat) : bool :=       (* true = multi-phase *)
   match nth_error vst k with Some (MS _) => true | _ => false end.
 (* which streams an operation writes to; sub-streams are not used as receivers, and a history stops once a
@@ -904,11 +909,13 @@ Definition write_back (a : astore) (k : nat) (s' : stream) : res astore :=
                              (upd (hs a) k (HProxy j (cphase c'))))
     | _, _ => Err EOther
     end
-  | Some (HView j p) =>
+  | Some (HView j p lbl) =>
     do old <- gets (cells a) j;
     match old, s' with
-    | MS m, SS c' => do i <- phase_index p (mphases m);
-                     Ok (mka (upd (cells a) j (MS (mkm (mpkg m) (mphases m) (upd (mrows m) i (crow c'))))) (hs a))
+    | MS m, SS c' => match pindex_exact p (mphases m) with
+                     | Some i => Ok (mka (upd (cells a) j (MS (mkm (mpkg m) (mphases m) (upd (mrows m) i (crow c'))))) (hs a))
+                     | None => Err EOther
+                     end
     | _, _ => Err EOther
     end
   | Some (HLink j phs) =>
@@ -931,8 +938,9 @@ Definition write_target (a : astore) (vst vst' : store) (o : op) (k : nat) : res
        the new rows (the others are dropped from the cache and stay on the old data) *)
     let follow := fun h =>
       match nth_error (hs a) k, s', h with
-      | Some (HCell j), MS m', HView j' p =>
-        if Nat.eqb j j' && in_indexer p (mphases m') && kind_at vst k then HView n p else h
+      | Some (HCell j), MS m', HView j' p lbl =>      (* streams[lbl]._imol = imol.get_phase(lbl) *)
+        if Nat.eqb j j' && in_indexer lbl (mphases m') && kind_at vst k
+        then HView n (if pmem lbl (mphases m') then lbl else swapcase lbl) lbl else h
       | _, _, _ => h
       end in
     Ok (mka (cells a1 ++ [s']) (upd (map follow (hs a1)) k (HCell n)))
@@ -942,31 +950,10 @@ Fixpoint write_all (a : astore) (vst vst' : store) (o : op) (ks : list nat) : re
   | [] => Ok a
   | k :: t => do a' <- write_target a vst vst' o k; write_all a' vst vst' o t
   end.
-(* MaterialIndexer.copy_like(single-phase source) starts with self.empty(): when the only non-empty inlet
-   of an energy-balanced mix is a sub-stream of the receiver itself, the source row is wiped before it is
-   read and the receiver ends up empty *)
-Definition own_view_only (l : list handle) (vst : store) (r : nat) (ins : list nat) : bool :=
-  kind_at vst r &&
-  match filter (fun i => match nth_error vst i with Some s => negb (isempty s) | None => false end) ins with
-  | [i] => negb (Nat.eqb i r) &&
-           match nth_error l i, nth_error l r with
-           | Some (HView j _), Some hr => Nat.eqb j (hcell hr)
-           | _, _ => false
-           end
-  | _ => false
-  end.
-Definition astep_values (l : list handle) (vst : store) (o : op) : res store :=
-  match o with
-  | OMix r ins true hf =>
-    if own_view_only l vst r ins
-    then do rs <- gets vst r; do _ <- gets_all vst ins; Ok (upd vst r (empty_stream rs))
-    else step vst o
-  | _ => step vst o
-  end.
 Definition astep (a : astore) (o : op) : res astore :=
   do vst <- views (cells a) (hs a);
   if negb (safe_op (hs a) vst o) then Err EOther else
-  do vst' <- astep_values (hs a) vst o;
+  do vst' <- step vst o;
   do a' <- write_all a vst vst' o (targets o);
   match o with
   | OMul _ _ => do s <- gets vst' (length vst);               (* the product is a new, unshared stream *)
